@@ -67,13 +67,20 @@ def delay_with_mapper_(
 
                     d = SingleAssignmentDisposable()
                     delays.add(d)
+                    delivered = [False]
 
                     def on_next(_: Any) -> None:
+                        if delivered[0]:
+                            return
+                        delivered[0] = True
                         observer.on_next(x)
                         delays.remove(d)
                         done()
 
                     def on_completed() -> None:
+                        if delivered[0]:
+                            return
+                        delivered[0] = True
                         observer.on_next(x)
                         delays.remove(d)
                         done()
